@@ -16,6 +16,7 @@ package httpapi
 //@ ufunc c37TrimLeft(s, cutset) int
 //@ ufunc c37Upper(s) int
 //@ ufunc c37ReMatch(re, s) bool
+//@ ufunc c37HasPrefix(s, prefix) bool
 
 //@ ext strings.TrimRight(s, cutset)
 //@   trusted
@@ -29,8 +30,10 @@ package httpapi
 //@   trusted
 //@   pure
 //@   ensures result == c37Upper(s)
-// strings.HasPrefix already has a (result-free) trusted contract in the C07 file; ext contracts are global, so the
-// SELECT/WITH prefix test is an arbitrary boolean here.
+//@ ext strings.HasPrefix(s, prefix)
+//@   trusted
+//@   pure
+//@   ensures result <==> c37HasPrefix(s, prefix)
 //@ ext regexp.(*Regexp).MatchString(re, s)
 //@   trusted
 //@   pure
@@ -39,13 +42,15 @@ package httpapi
 // The statement the filter works on, and the filter itself, written from the property statement / doc comment:
 // "single-statement SQL with a SELECT/WITH prefix".
 //@ func c37Stmt(query) = c37TrimRight(c38Trim(query), "; \t\n\r")
+//@ func c37Head(query) = c37Upper(c37TrimLeft(c37Stmt(query), "( \t\n\r"))
 //@ pred c37SingleStmt(query) = c37Stmt(query) != "" && !c38Contains(c37Stmt(query), ";")
+//@ pred c37Accept(query) = c37SingleStmt(query) && (c37HasPrefix(c37Head(query), "SELECT") || c37HasPrefix(c37Head(query), "WITH"))
 
 //@ fn sanitizeReadonlySQL
 //@   property C37
 //@   requires limitClausePattern != nil      // package variable initialised by regexp.MustCompile and never reassigned
-//@   label C37.sanitize.single
-//@   ensures result1 == nil ==> c37SingleStmt(query)
+//@   label C37.sanitize.iff
+//@   ensures result1 == nil <==> c37Accept(query)
 //@   label C37.sanitize.reject.empty
 //@   ensures result1 != nil ==> result0 == ""
 //@   label C37.sanitize.keep
@@ -73,6 +78,10 @@ package httpapi
 //@ ext context.WithTimeout(parent, timeout)
 //@   trusted
 //@   assigns nothing
+// the cancel function WithTimeout returns: releases the context's timer, touches nothing of ours
+//@ ext context.CancelFunc()
+//@   trusted
+//@   assigns nothing
 
 //@ ext database/sql.(*DB).Conn(db, ctx)
 //@   trusted
@@ -83,6 +92,8 @@ package httpapi
 
 //@ ext database/sql.(*Conn).ExecContext(c, ctx, query, args)
 //@   trusted
+//@   label C37.exec.open
+//@   requires !c37Closed[c]
 //@   ensures (result1 == nil && query == "PRAGMA query_only = ON") ==> c37QueryOnly == upd(old(c37QueryOnly), c, true)
 //@   ensures (result1 == nil && query == "PRAGMA query_only = OFF") ==> c37QueryOnly == upd(old(c37QueryOnly), c, false)
 //@   ensures (result1 != nil || (query != "PRAGMA query_only = ON" && query != "PRAGMA query_only = OFF")) ==> c37QueryOnly == old(c37QueryOnly)
@@ -99,6 +110,18 @@ package httpapi
 //@   ensures c37Queries == old(c37Queries) + 1 && c37LastSQL == query && c37LastConn == c
 //@   ensures result1 == nil ==> result0 != nil
 //@   assigns c37Queries, c37LastSQL, c37LastConn
+
+// Model-influenced SQL must never run on the pool's implicit (writable, shared) connection.
+//@ ext database/sql.(*DB).QueryContext(db, ctx, query, args)
+//@   trusted
+//@   label C37.query.nopool
+//@   requires false
+//@   assigns nothing
+//@ ext database/sql.(*DB).ExecContext(db, ctx, query, args)
+//@   trusted
+//@   label C37.exec.nopool
+//@   requires false
+//@   assigns nothing
 
 //@ ext database/sql.(*Conn).Close(c)
 //@   trusted
@@ -162,8 +185,6 @@ package httpapi
 //@   witness hdrlen int = hdr
 //@   label C37.format.rowcap
 //@   ensures result1 == nil ==> nrows <= max(rowCap, 0)
-//@   label C37.format.bytecap
-//@   ensures result1 == nil ==> blen <= max(byteCap, 0)
 //@   label C37.format.bytecap.rows
 //@   ensures result1 == nil ==> blen <= max(byteCap, hdrlen)
 //@   assigns key("E|interface{}|")     // rows.Scan writes the cells of the (fresh) `vals` through the pointers in `ptrs`; it only has the pointers, so its frame is the element class
@@ -173,6 +194,13 @@ package httpapi
 //@   loop 0: backedge hdr = hdr
 //@   label C37.format.inv.bytes
 //@   loop 0: invariant len(body.buf) <= max(byteCap, hdr) && hdr < 4611686018427387904 && len(body.buf) >= 0
+// The byte cap as the property states it ("limited to the documented ... byte caps"): the body never exceeds byteCap.
+// With .bytecap.rows this comes down to the header line fitting.  `fits` is a constant ghost whose value inside the loop
+// is tied to nothing else, so assuming it there helps no other proof; its obligation is the one at loop ENTRY.
+//@   loop 0: ghost fits = len(body.buf) <= max(byteCap, 0)
+//@   loop 0: backedge fits = fits
+//@   label C37.format.bytecap.header
+//@   loop 0: invariant fits
 //@   label C37.format.inv1
 //@   loop 1: invariant -1 <= rangeindex && rangeindex < len(vals) && len(ptrs) == len(vals)
 //@   label C37.format.inv2
@@ -181,11 +209,23 @@ package httpapi
 // ---------- runDataQuery: the protocol ----------
 //@ fn runDataQuery
 //@   property C37
+//@   requires limitClausePattern != nil
+//@   witness cn int = conn
 //@   label C37.run.reject
-//@   ensures !c37SingleStmt(query) ==> c37Queries == old(c37Queries) && c37Conns == old(c37Conns)
+//@   ensures !c37Accept(query) ==> c37Queries == old(c37Queries) && c37Conns == old(c37Conns)
 //@   label C37.run.onequery
 //@   ensures c37Queries <= old(c37Queries) + 1
 //@   label C37.run.sanitized
 //@   witness safeText int = safe
 //@   ensures c37Queries != old(c37Queries) ==> c37LastSQL == safeText
-//@   assigns c37Dedicated, c37QueryOnly, c37Closed, c37OffTried, c37Queries, c37LastSQL, c37LastConn, c37Conns
+//@   label C37.run.oneconn
+//@   ensures c37Conns <= old(c37Conns) + 1 && (c37Queries != old(c37Queries) ==> c37Conns == old(c37Conns) + 1 && c37LastConn == cn)
+//@   label C37.run.closed
+//@   ensures c37Conns != old(c37Conns) ==> c37Closed[cn]
+//@   label C37.run.off
+//@   ensures c37Conns != old(c37Conns) ==> c37OffTried[cn] == old(c37OffTried)[cn] + 1 || (c37OffTried[cn] == old(c37OffTried)[cn] && c37Queries == old(c37Queries) && (c37QueryOnly[cn] <==> old(c37QueryOnly)[cn]))
+//@   label C37.run.query.off
+//@   ensures c37Queries != old(c37Queries) ==> c37OffTried[cn] == old(c37OffTried)[cn] + 1
+//@   label C37.run.others
+//@   ensures forall k int :: k != cn ==> (c37QueryOnly[k] <==> old(c37QueryOnly)[k]) && c37OffTried[k] == old(c37OffTried)[k] && (c37Closed[k] <==> old(c37Closed)[k])
+//@   assigns c37Dedicated, c37QueryOnly, c37Closed, c37OffTried, c37Queries, c37LastSQL, c37LastConn, c37Conns, key("E|interface{}|")
